@@ -214,7 +214,8 @@ def execute(scn, L):
         recs, end, exc = read_all(
             wk, data, block_size=bs, stream=kind, buf=buf, actor='cfg',
             prefix=sx.get('prefix', 0) if isinstance(sx.get('prefix', 0), int)
-            else 0, late_rewind=bool(sx.get('late_rewind')))
+            else 0, late_rewind=bool(sx.get('late_rewind')),
+            extras=sx if isinstance(sx, dict) else None)
         out.absorb(wk)
         out.evals += 1
         info = {'pad': pad, 'block_size': bs, 'stream': kind, 'buf': buf,
